@@ -31,7 +31,7 @@ let eval (input : Sx.t) (obs : Sx.t) : Sx.t list * bool * bool * string =
   (* the property on the implementation's own answer: only GET/HEAD under the prefix at a segment
      boundary are answered; what is served is a regular file of the tree below the directory;
      redirects end with a slash *)
-  let inside_ids = [3; 4; 5; 6; 7; 8; 9; 10] in
+  let inside_ids = [3; 4; 5; 6; 7; 8; 9; 10; 11; 12] in
   let ms = ocaml_string_of_str m in
   let pre = o.so_prefix in
   let boundary = pre = [] || (has_prefix pre p && (match List.filteri (fun i _ -> i >= List.length pre) p with [] -> true | c :: _ -> int_of_n c = 47)) in
